@@ -298,6 +298,14 @@ def handle (st : St) (args : List String) (impl : String) : St × Verdict :=
   -- `waited` iff the resize is due and a reader is open (`Props/C18Handles.lean`
   -- `new_handle_defers_under_reader` / `new_handle_resizes_at_once_when_idle`): the value the
   -- property fixes (no resize under an open transaction) - `cmpSpec`
+  -- run `envkeys`: one environment registered under key 0 / directory 0; `Store::new` on a spelling
+  -- with the same / another key that resolves to the same / another directory
+  | "envkey" :: _name :: rest => match kvArg rest "samekey", kvArg rest "samedir" with
+    | some sk, some sd =>
+      let m : EnvMapD := if _name = "after-close" then [] else [(0, 0, { gate := rinit 0 0 })]
+      let o := storeNewOutcome m (if sk = 1 then 0 else 1) (if sd = 1 then 0 else 1)
+      (st, cmpModel (match o with | .shared => "shared" | .refused => "refused" | .separate => "separate") impl)
+    | _, _ => (st, .unknown)
   | "rh-trigger" :: _variant :: rest =>
     match kvArg rest "reader", kvArg rest "used", kvArg rest "map", kvArg rest "chunk" with
     | some reader, some used, some map, some chunk =>
